@@ -7,7 +7,7 @@ RULE = ("explicit-state BFS over well-formed edit histories of a real WaterNetwo
         "pattern P, curves H,G (HEAD) and V (VOLUME), source s, control c; operations add_junction/tank/reservoir/pipe/"
         "pump(HEAD|POWER, speed pattern)/valve(TCV|PRV)/pattern/curve/source/control, remove_node/link (with and without "
         "with_control)/pattern/curve/source/control, reassignment of start/end node, speed pattern, pump curve, volume curve, "
-        "head pattern, add_demand; start states: empty model, 'pumpnet' (3 nodes, pattern-using pump + pipe), 'roles' (untyped curve used as pump curve) and 'rich' "
+        "head pattern, add_demand; start states: empty model, 'pumpnet' (3 nodes, pattern-using pump + pipe), 'roles' (untyped curve used as pump curve), 'lonely' (node without links but with a source and a control) and 'rich' "
         "(tank with volume curve, reservoir with head pattern, source, control).  Enabledness and the expected outcome "
         "(succeed / refuse) come from a plain-dict reference; the invariant compares every public view with it in every "
         "state.  A state is distinct by the canonical form of all observable views; non-trivial transition = a removal or "
@@ -274,6 +274,10 @@ def start_model(label):
         # curves used in a role that differs from their declared type: an untyped curve as pump curve
         pre = [["add_curve", "U", None], ["add_curve", "H", "HEAD"], ["add_reservoir", "A", None], ["add_junction", "B", None],
                ["add_hpump", "p", "A", "B", "U", None]]
+    elif label == "lonely":
+        # a node without links that still has users: a source injects there and a control watches it
+        pre = [["add_pattern", "P"], ["add_reservoir", "A", None], ["add_junction", "B", None], ["add_junction", "C", "P"],
+               ["add_pipe", "p", "A", "B"], ["add_source", "s", "C", "P"], ["add_control", "c", "p", "C"]]
     elif label != "empty":
         raise KeyError(label)
     for op in pre:
@@ -532,10 +536,10 @@ def run_case(spec):
 
 def run(run_, tier, seed):
     from .. import bfs
-    depth = {"quick": {"empty": 4, "pumpnet": 3, "rich": 3, "roles": 3}, "thorough": {"empty": 6, "pumpnet": 5, "rich": 4, "roles": 4}}[tier]
+    depth = {"quick": {"empty": 4, "pumpnet": 3, "rich": 3, "roles": 3, "lonely": 3}, "thorough": {"empty": 6, "pumpnet": 5, "rich": 4, "roles": 4, "lonely": 4}}[tier]
     tot = {"states": 0, "transitions": 0, "traces_validated_against_impl": 0, "max_depth": 0, "levels": {}}
     samples = []
-    for label in ("empty", "pumpnet", "rich", "roles"):
+    for label in ("empty", "pumpnet", "rich", "roles", "lonely"):
         bfs.search(run_, __import__("vf.props.c14", fromlist=["x"]), [label], depth[label], seed=seed)
         for k in ("states", "transitions", "traces_validated_against_impl"):
             tot[k] += run_.extra[k]
